@@ -178,8 +178,49 @@ def run(rep, tier, rng):
         cases.append(("a%d" % i, "libs", ["std"]))
         cases.append(("b%d" % i, "prog", ["std"] + b))
         meta[i] = (a, b, steps, order)
-    long_n = len(FAILING) + 4
+    # two instances each running a PROGRAM FILE next to the same stateful library file (a counter): each has its own instance of it
+    base_j = base_i + 4
+    for j in range(3):
+        a = ["(import (scheme base) (util))\n(f)", "(f)", "(f)"]
+        b = ["(import (scheme base) (util))\n(f)", "(f)"]
+        steps, order = [], []
+        seq = [(0, 0), (1, 0), (0, 1), (1, 1), (0, 2)] if j == 0 else ([(0, 0), (0, 1), (0, 2), (1, 0), (1, 1)] if j == 1 else [(1, 0), (0, 0), (1, 1), (0, 1), (0, 2)])
+        for inst, k in seq:
+            text = (a if inst == 0 else b)[k]
+            if k == 0:
+                steps.append("S%d:%s" % (inst, text)); order.append(("counter", (inst, 0)))
+            else:
+                steps.append("%d:%s" % (inst, text)); order.append(("counter", (inst, k)))
+        i = base_j + j
+        cases.append(("w%d" % i, "world", steps))
+        cases.append(("a%d" % i, "libs", ["std"]))
+        cases.append(("b%d" % i, "prog", ["std"]))
+        meta[i] = (a, b, steps, order)
+    long_n = len(FAILING) + 4 + 3
     impl = C.run_hx(cases)
+    # ONE-THREAD SOAK: every program of this run that was evaluated ALONE (its own interpreter, a fresh thread) is evaluated again, all of
+    # them one after another on ONE thread of one process - preceded by programs that fail hundreds of times in every way (rejected
+    # macro uses, run-time faults below pending calls, rejected definitions, failed imports, reader directives). Each must give exactly
+    # what it gave alone: an interpreter instance leaves nothing behind on its thread that a later instance can see
+    poison = [("poison0", "prog", ["std", "(define-syntax pk (syntax-rules (k) ((pk k a) 1) ((pk a) 2)))"] + ["(pk 1 2 3)", "(pk)", "(let ((t (pk 1 2))) t)", "(cond)"] * 120),
+              ("poison1", "prog", ["std", "(define (bad q) (car q))", "(define (deep n) (if (= n 0) (undefined-zz) (+ 1 (deep (- n 1)))))"] +
+               ["(bad 5)", "(deep 3)", "((lambda (a) a))", "(vector-ref (vector) 1)", "(map bad '(1))"] * 260),
+              ("poison2", "prog", ["std"] + ["(define-syntax b1 (syntax-rules ::: () ((_ a :::) 1)))", "(import (no such lib))", "#!fold-case", "(or (define-syntax zz1 (syntax-rules ())))",
+                                             "(define-syntax when (syntax-rules () ((when a) 'mine)))", "(1 2", ")"] * 40)]
+    alone_cases = [c for c in cases if c[0][0] in "ab"]
+    soak = C.run_hx_same_thread(poison + alone_cases + poison + alone_cases[:40])
+    if soak is None:
+        rep.violation({"what": "the harness process died while evaluating, one after another on one thread, programs that each run alone"}, no_input=False)
+    else:
+        diffs = 0
+        for c in alone_cases:
+            rep.count()
+            if soak.get(c[0]) != impl.get(c[0]) and diffs < 3:
+                diffs += 1
+                rep.violation({"what": "a program evaluated on its own interpreter gives another result when other interpreter instances ran earlier on the "
+                                       "same thread (something an instance evaluated stayed behind in thread-local state)",
+                               "program": c[2], "alone_on_a_fresh_thread": impl.get(c[0]), "after_other_instances_on_the_thread": soak.get(c[0])})
+        rep.extra["one_thread_soak_programs"] = len(alone_cases)
     model = C.run_driver([c for c in cases if not (c[0][0] == "w" and int(c[0][1:]) >= n)])
     for i in range(n + long_n):
         a, b, steps, order = meta[i]
@@ -198,6 +239,14 @@ def run(rep, tier, rng):
                     bad = True; break
                 continue
             if inst == "skip":
+                continue
+            if inst == "counter":
+                # the idx-th call of this instance's OWN copy of the library's counter
+                if got != "V i:%d" % (idx[1] + 1):
+                    rep.violation({"what": "what one interpreter instance evaluated changed the result of another instance (two instances running program "
+                                           "files next to one stateful library file share its state)", "steps": steps[:k + 1], "instance": idx[0],
+                                   "expected": "V i:%d" % (idx[1] + 1), "got": got})
+                    bad = True; break
                 continue
             if inst == "new":
                 if got != "new-ok":
@@ -231,7 +280,7 @@ def main(tier, seed):
                        "failing and unparsable forms) interleaved at random over two instances on one thread, with creation of "
                        "further instances at random points; plus six long histories in which one instance fails 200-1500 times before the "
                        "other computes, and four in which one instance runs program FILES next to a library file while another asks for a "
-                       "library of that name; distinct = distinct step sequences")
+                       "library of that name; plus a one-thread soak (every program that ran alone, again, all on ONE thread after hundreds of failures of every kind); distinct = distinct step sequences")
     rep.assumptions = ["that the Rust code has no other channel between instances than the inventoried globals is an inventory (grep "
                        "over non-test source), not a theorem"]
     ok = C.standard_proof_phase(rep, MODULES, directed_search=lambda r: run(r, tier, rng))
